@@ -34,7 +34,7 @@ def get_adapter(prop):
 BUDGET = {
     # property: tier: (runs, soft deadline seconds)
     'C15': {'quick': (24000, 50), 'thorough': (1500000, 780)},
-    'C20': {'quick': (3000, 55), 'thorough': (400000, 1020)},
+    'C20': {'quick': (3000, 65), 'thorough': (400000, 1020)},
 }
 
 
@@ -153,12 +153,17 @@ def determinism_join(h):
     return {'runs': h['count'], 'interpreters': 2, 'hashseeds': [0, 4242], 'identical': ok, 'first_diffs': diff[:5]}
 
 
+LAST_REEXECUTION = None
+
+
 def crash_check(ad, plan, tier='quick'):
     """Execute the plan in an isolated child; return 'CRASH:<SIGNAL>' if the child dies of a fault signal,
     'HANG:...' if it does not finish within the per-run wall-clock limit."""
     from sim import isolate, runner
+    global LAST_REEXECUTION
+    LAST_REEXECUTION = None
     try:
-        isolate.with_rundir(ad.execute_full, (plan,), timeout=runner.RUN_TIMEOUT[tier])
+        LAST_REEXECUTION = isolate.with_rundir(ad.execute_full, (plan,), timeout=runner.RUN_TIMEOUT[tier])
     except isolate.ChildFailed as e:
         if e.signal in isolate.CRASH_SIGNALS:
             return 'CRASH:' + isolate.CRASH_SIGNALS[e.signal]
@@ -270,6 +275,7 @@ def cmd_check(prop, tier, nruns_override=None, workers=None, selftest=True):
     # violations: minimise, write replay, confirm in a fresh interpreter; known findings were classified by key
     reported = []
     unreproducible = []
+    slow_runs = []
     seen_keys = set()
     for v in agg['violations']:
         key = v['violation']['key']
@@ -279,7 +285,14 @@ def cmd_check(prop, tier, nruns_override=None, workers=None, selftest=True):
         if key.startswith(('CRASH:', 'HANG:')):
             crashed = crash_check(ad, v['plan'], tier)
             if crashed != key:
-                unreproducible.append((key, v['i']))
+                if key.startswith('HANG:') and crashed is None:
+                    # re-executed alone the run finished (without a fault): it was merely slow on a busy machine
+                    slow_runs.append(v['i'])
+                    for x in ((LAST_REEXECUTION or {}).get('violations') or []):
+                        if x['key'] not in known:      # what the slow run found when it was given the time
+                            agg['violations'].append({'i': v['i'], 'violation': x, 'plan': v['plan']})
+                else:
+                    unreproducible.append((key, v['i']))
                 continue
             rs = core.run_seed(prop, base, v['i'])
             os.makedirs(os.path.join(core.OUT_DIR, 'replays'), exist_ok=True)
@@ -349,6 +362,7 @@ def cmd_check(prop, tier, nruns_override=None, workers=None, selftest=True):
     for r in reported:
         print('violation detail: run index %d key=%s %s' % (r['i'], r['key'], json.dumps(r['violation'], default=str)[:600]))
         print('VIOLATION property=%s replay=%s' % (prop, r['path']))
+    agg['stats']['slow_runs_finished_on_reexecution'] = len(slow_runs)
     write_evidence(prop, tier, base, ad, agg, det, reported, {k: known_hits[k][0] for k in sorted(known_hits)}, time.time() - t0)
     print('%s %s: %d runs in %.1fs (%d workers), %d distinct non-trivial, %d violations, %d known findings' % (
         prop, tier, agg['n'], time.time() - t0, workers, len(agg['nontrivial']), len(reported), len(known_hits)))
